@@ -71,17 +71,22 @@ func (c *ctx) probeConn(i int) {
 	// ---- invocations against predictions (C05 framing, C08 dispatch, C19) ----
 	k := 0 // index into invs
 	var expReplies []plan.Pred
+	served := map[uint32]bool{} // sessions that had a packet dispatched earlier on this connection
 	for _, pr := range preds {
 		switch pr.Kind {
 		case "dispatch":
 			if k >= len(invs) {
 				if quiet {
 					c.v("C05/packet-not-delivered", "conn %d: packet op %d %s was sent in full and never reached a handler (got %d invocations)", id, pr.Op, hstr(pr.H), len(invs))
+					if pr.Handler == 0 && served[pr.H.Session] {
+						c.v("C08/finished-session-remembered", "conn %d: packet op %d %s reuses the id of a session that finished earlier on this connection; it must start from the initial handler, but no handler ran (something of the finished session was retained)", id, pr.Op, hstr(pr.H))
+					}
 				}
 				goto replies
 			}
 			inv := invs[k]
 			k++
+			served[pr.H.Session] = true
 			if inv.H != pr.H {
 				c.v("C05/header-differs", "conn %d invocation %d: handler saw header %s, client sent %s", id, inv.Index, hstr(inv.H), hstr(pr.H))
 				goto replies
